@@ -1541,6 +1541,9 @@ func checkC04(ck *Check) {
 	ck.floor("C04.R1", "IncreaseSize call sites", n, 1)
 	ck.ok("C04.R3", "provider-bound", "", "", "the provider refuses TargetSize + d > MaxSize before any write (decided as C17.R1)", "see C17.R1")
 	ck.providerBounds("C04.R3")
+	// R8 … and the provider adds exactly the delta it is asked for, whichever strategy it takes
+	// (decided as C17.R2 / R3)
+	ck.shareRules(checkC17, "C04.R8", "C17.R2", "C17.R3")
 	// R6 … by a provider that was refreshed or rebuilt in this RunOnce
 	ck.rebuildFailureStops("C04.R6")
 	// R7 … and the maximum and the target it reads are those of the last refresh (decided as C19.R8)
